@@ -12,6 +12,7 @@ import (
 	"verif/engine/props/c03"
 	"verif/engine/props/c06"
 	"verif/engine/props/c07"
+	"verif/engine/props/c12"
 	"verif/engine/props/c13"
 	"verif/engine/props/c19"
 	"verif/engine/props/c20"
@@ -29,6 +30,7 @@ var checks = map[string]struct {
 	"C03": {"model_checking", c03.Run},
 	"C06": {"model_checking", c06.Run},
 	"C07": {"model_checking", c07.Run},
+	"C12": {"model_checking", c12.Run},
 	"C13": {"model_checking", c13.Run},
 	"C19": {"model_checking", c19.Run},
 	"C20": {"model_checking", c20.Run},
